@@ -103,15 +103,26 @@ Theorem extract_end_values_placement : forall V (d : V) secs (conn : list bool) 
 Proof. intros V d. exact (end_node_placement d). Qed.
 Print Assumptions extract_end_values_placement.
 
-(* 6b. last-section results (t_outlet_k), code as repaired in aef289a: last sections are the index changes in
-   pit order; row r gets the value of its own last section iff that section is connected *)
-Theorem extract_last_section_placement : forall V (d : V) labels secs (conn : list bool) (vals old : list V),
+(* 6b. outlet results (t_outlet_k), code as of 82df6bf: last sections are the index changes in pit order, first
+   sections the positions after an index change; row r gets the value of its own outlet section - the last section,
+   or the first one when FROM_NODE_T_SWITCHED is set (flow against the declared direction) - iff its last section is
+   connected.  [pos_of_blocks 0 (first_blocks secs)] / [(last_blocks secs)] are the first / last section of every row. *)
+Theorem extract_last_section_placement : forall V (d : V) labels secs (conn sw : list bool) (vals old : list V),
+  length secs = length labels -> NoDup labels -> (forall s, In s secs -> (0 < s)%nat) ->
+  length old = length labels ->
+  place_outlet d (idx_pit_of labels secs) conn sw vals old =
+  Some (outlet_rows d (pos_of_blocks 0 (first_blocks secs)) (pos_of_blocks 0 (last_blocks secs)) conn sw vals old).
+Proof. intros V d. exact (outlet_placement d). Qed.
+Print Assumptions extract_last_section_placement.
+
+(* without reversed flow this is the last section of the row (the former statement) *)
+Theorem extract_last_section_placement_unswitched : forall V (d : V) labels secs (conn : list bool) (vals old : list V),
   length secs = length labels -> NoDup labels -> (forall s, In s secs -> (0 < s)%nat) ->
   length conn = fold_right plus 0%nat secs -> length vals = fold_right plus 0%nat secs ->
   length old = length labels ->
   place_last d (idx_pit_of labels secs) conn vals old = Some (expect_rows d (last_blocks secs) conn vals old).
 Proof. intros V d. exact (last_section_placement d). Qed.
-Print Assumptions extract_last_section_placement.
+Print Assumptions extract_last_section_placement_unswitched.
 
 (* 6c. section means: the j-th group of the grouped sum over ELEMENT_IDX is the row with the j-th smallest label -
    the row to which placement_table = argsort(table index) sends it - and its sum is the sum over that row's
@@ -148,8 +159,9 @@ Proof. vm_compute. repeat split. Qed.
 
 (* the labelling that exposed the former t_outlet_k misplacement: labels [7;3;5], sections [1;3;2] *)
 Example t_outlet_example :
-  place_last 0 (idx_pit_of [7; 3; 5] [1; 3; 2]%nat) [true; true; true; true; true; true]
-             [10; 20; 21; 22; 30; 31] [-1; -1; -1] = Some [10; 22; 31]
+  place_outlet 0 (idx_pit_of [7; 3; 5] [1; 3; 2]%nat) [true; true; true; true; true; true]
+               [false; true; true; true; false; false] [10; 20; 21; 22; 30; 31] [-1; -1; -1] = Some [10; 20; 31]
+  /\ pos_of_blocks 0 (first_blocks [1; 3; 2]%nat) = [0; 1; 4]%nat /\ pos_of_blocks 0 (last_blocks [1; 3; 2]%nat) = [0; 3; 5]%nat
   /\ place_mean false [7; 3; 5] (idx_pit_of [7; 3; 5] [1; 3; 2]%nat) [true; true; true; true; true; true]
                 [12; 24; 36; 48; 10; 20] [-1; -1; -1] = [12; 36; 15]
   /\ snd (pit_of [40; 10; 30] {| w_labels := [7; 3]; w_from := [10; 30]; w_to := [30; 40]; w_secs := [3; 1]%nat |} 3)
